@@ -1,6 +1,42 @@
-import YncaVerif.Model.Conn
-/-! # C13 — (statements over the L4 model; under construction) -/
+import YncaVerif.Lemmas.C13
+/-! # C13 — keep-alive traffic is invisible and swallows nothing else
+Over the L4 model at attribute granularity: the sender sets the flag when it dequeues a probe (`s1`),
+the reader reads the flag (`r1`) and clears it (`r2`) for every line, in separate steps that interleave
+freely.  `decisions` records, for every received line, its text, whether it was withheld, and whether a
+probe had been flagged since the flag was last cleared (i.e. since the previous line was processed, or
+since the connection was made). -/
 namespace Ynca.C13
 open Ynca.L4
-theorem C13_model_initial_state : run ⟨100000, 30000000, 2000000, 1000000, 0⟩ {} [] = some {} := rfl
+
+def isModelname (l : String) : Bool :=
+  (parseLine l).subunit == some "SYS" && (parseLine l).fn == some "MODELNAME"
+
+/-- the flag is set exactly when a probe was flagged since it was last cleared -/
+theorem C13_flag_exact (P : Params) (s : St) (h : Reachable P s) :
+    s.kaPending = decide (s.probesAtClear < s.probesStarted) :=
+  flag_exact P s h
+
+/-- **only if**: a line is withheld only if it is a `SYS:MODELNAME` line and a probe was started since the
+    previous line was processed -/
+theorem C13_only_if (P : Params) (s : St) (h : Reachable P s) :
+    ∀ d ∈ s.decisions, d.2.1 = true → isModelname d.1 = true ∧ d.2.2 = true :=
+  withheld_only_if P s h
+
+/-- **delivered otherwise**: every other line is delivered — in particular a MODELNAME reply to the user's own
+    query when no probe has been started since the previous line -/
+theorem C13_delivered_otherwise (P : Params) (s : St) (h : Reachable P s) :
+    ∀ d ∈ s.decisions, (isModelname d.1 = false ∨ d.2.2 = false) → d.2.1 = false :=
+  delivered_otherwise P s h
+
+/-- **converse**: a MODELNAME line that arrives while a probe has been started since the flag was last
+    cleared is withheld -/
+theorem C13_converse (P : Params) (s : St) (h : Reachable P s) :
+    ∀ d ∈ s.decisions, isModelname d.1 = true → d.2.2 = true → d.2.1 = true :=
+  withheld_if P s h
+
+/-- a withheld line reaches no message callback: the reader goes straight back to splitting the buffer -/
+theorem C13_withheld_not_delivered (P : Params) (s s' : St) (l : String) (o : Option Obs)
+    (hpc : s.rpc = .line2 l true) (h : step P s .r = some (s', o)) : s'.rpc = .split ∧ o = none :=
+  withheld_skips_delivery P s s' l o hpc h
+
 end Ynca.C13
